@@ -8,7 +8,7 @@
 //!  T (descriptors)
 use std::collections::HashMap;
 use std::path::PathBuf;
-use std::sync::Arc;
+use std::sync::{Arc, Mutex};
 use std::time::{Duration, Instant};
 
 use raindb::db::DatabaseDescriptor;
@@ -20,6 +20,72 @@ use crate::simfs::SimFs;
 use crate::util::*;
 
 pub type DbIter = Box<dyn RainDbIterator<Key = Vec<u8>, Error = RainDBError>>;
+
+/// internal steps reported by the database (version installs with the entries of the new table
+/// files, compaction starts, trivial moves), serialised for the step-refinement check
+pub static EVENTS: Mutex<Vec<String>> = Mutex::new(Vec::new());
+
+fn key_str(k: &(Vec<u8>, u64, u8)) -> String {
+    format!("x{}:{}:{}", hex(&k.0), k.1, k.2)
+}
+
+/// install the event observer: every event is serialised at once (the entries of a new table file
+/// are read from the file system image while the file certainly exists)
+pub fn enable_events(sim: &SimFs, cfg: (usize, u64, usize, bool)) {
+    use raindb::verif_hooks::events::{self, Event};
+    let sim2 = sim.clone();
+    events::install(Arc::new(move |ev: &Event| {
+        let line = match ev {
+            Event::VersionInstalled { deleted, added, last_sequence } => {
+                let opts = make_options(&sim2, cfg);
+                let mut del: Vec<String> = deleted.iter().map(|(l, n)| format!("{}:{}", l, n)).collect();
+                del.sort();
+                let add: Vec<String> = added
+                    .iter()
+                    .map(|(l, n, size, small, large)| {
+                        let path = PathBuf::from(format!("db/data/{}.rdb", n));
+                        let entries = match vt::VTable::open(opts.clone(), &path) {
+                            Ok(t) => match t.layout() {
+                                Ok(lay) => {
+                                    let es: Vec<String> = lay
+                                        .into_iter()
+                                        .flat_map(|(_, _, es)| es)
+                                        .map(|e| format!("x{}:{}:{}:x{}", hex(&e.0), e.1, e.2, hex(&e.3)))
+                                        .collect();
+                                    if es.is_empty() { "-".to_string() } else { es.join(",") }
+                                }
+                                Err(_) => "unreadable".to_string(),
+                            },
+                            Err(_) => "unreadable".to_string(),
+                        };
+                        format!("{}@{}@{}@{}~{}@{}", l, n, size, key_str(small), key_str(large), entries)
+                    })
+                    .collect();
+                format!(
+                    "I[{}][{}][{}]",
+                    del.join(";"),
+                    if add.is_empty() { "-".to_string() } else { add.join("+") },
+                    last_sequence
+                )
+            }
+            Event::CompactionStart { level, inputs0, inputs1, smallest_snapshot } => format!(
+                "C[{}][{}][{}][{}]",
+                level,
+                inputs0.iter().map(|n| n.to_string()).collect::<Vec<_>>().join(";"),
+                inputs1.iter().map(|n| n.to_string()).collect::<Vec<_>>().join(";"),
+                smallest_snapshot
+            ),
+            Event::TrivialMove { level, file } => format!("M[{}][{}]", level, file),
+        };
+        EVENTS.lock().unwrap().push(line);
+    }));
+}
+
+pub fn mark_event(text: &str) {
+    if raindb::verif_hooks::events::is_installed() {
+        EVENTS.lock().unwrap().push(text.to_string());
+    }
+}
 
 pub struct Session {
     pub sim: SimFs,
@@ -65,7 +131,10 @@ pub fn err_class(e: &RainDBError) -> String {
 impl Session {
     pub fn open(sim: SimFs, cfg: (usize, u64, usize, bool)) -> Result<Session, String> {
         let opts = make_options(&sim, cfg);
-        match DB::open(opts) {
+        mark_event(&format!("O[{}]", cfg.1));
+        let res = DB::open(opts);
+        mark_event("R[]");
+        match res {
             Ok(db) => Ok(Session {
                 sim,
                 db: Some(db),
@@ -355,7 +424,13 @@ impl Session {
                 self.close();
                 let opts = make_options(&self.sim, cfg);
                 self.cfg = cfg;
-                match DB::open(opts) {
+                if raindb::verif_hooks::events::is_installed() {
+                    enable_events(&self.sim, cfg);
+                }
+                mark_event(&format!("O[{}]", cfg.1));
+                let res = DB::open(opts);
+                mark_event("R[]");
+                match res {
                     Ok(db) => {
                         self.db = Some(db);
                         "ok".to_string()
@@ -396,6 +471,12 @@ impl Session {
                 let facts = crate::suite_crash::LAST_DIR_FACTS.lock().unwrap().pop().unwrap_or_default();
                 format!("{}#{}", r, facts)
             }
+            b'V' => {
+                // the events since the previous V token
+                self.quiesce();
+                let evs: Vec<String> = EVENTS.lock().unwrap().drain(..).collect();
+                if evs.is_empty() { "-".to_string() } else { evs.join("|") }
+            }
             b'E' => match self.db().get_descriptor(DatabaseDescriptor::Stats) {
                 Ok(s) => format!("stats:{}", s.len()),
                 Err(e) => err_class(&e),
@@ -424,6 +505,10 @@ pub fn run_dbhist(line: &str) -> String {
     let id = toks[0];
     let cfg = parse_cfg(toks[1]);
     let sim = SimFs::new();
+    EVENTS.lock().unwrap().clear();
+    if toks.iter().any(|t| *t == "V") {
+        enable_events(&sim, cfg);
+    }
     let mut sess = match Session::open(sim, cfg) {
         Ok(s) => s,
         Err(e) => return format!("{} open-{}", id, e),
@@ -437,5 +522,6 @@ pub fn run_dbhist(line: &str) -> String {
         out.push(sess.exec(op));
     }
     sess.close();
+    raindb::verif_hooks::events::uninstall();
     format!("{} {}", id, out.join(" "))
 }
